@@ -61,26 +61,12 @@ func paramConsts(p *Program, fn *ssa.Function, idx int, depth int, seen map[stri
 		if cc.StaticCallee() != fn || idx >= len(cc.Args) {
 			return nil, false
 		}
-		switch a := cc.Args[idx].(type) {
-		case *ssa.Const:
-			out[constStr(a)] = true
-		case *ssa.Parameter:
-			caller := a.Parent()
-			j := -1
-			for i, q := range caller.Params {
-				if q == a {
-					j = i
-				}
-			}
-			sub, ok := paramConsts(p, caller, j, depth+1, seen)
-			if !ok {
-				return nil, false
-			}
-			for c := range sub {
-				out[c] = true
-			}
-		default:
+		sub, ok := constSetOf(p, cc.Args[idx], depth, seen)
+		if !ok {
 			return nil, false
+		}
+		for c := range sub {
+			out[c] = true
 		}
 	}
 	return out, true
@@ -705,4 +691,72 @@ func siteOrdinal(fn *ssa.Function, at ssa.Instruction) int {
 		}
 	}
 	return 0
+}
+
+// constSetOf: the constants a value can take: a constant, a caller's parameter
+// (recursively), a phi of such, or an element of a literal array/slice of constants.
+func constSetOf(p *Program, v ssa.Value, depth int, seen map[string]bool) (map[string]bool, bool) {
+	out := map[string]bool{}
+	switch a := v.(type) {
+	case *ssa.Const:
+		out[constStr(a)] = true
+		return out, true
+	case *ssa.Parameter:
+		caller := a.Parent()
+		j := -1
+		for i, q := range caller.Params {
+			if q == a {
+				j = i
+			}
+		}
+		return paramConsts(p, caller, j, depth+1, seen)
+	case *ssa.Phi:
+		for _, e := range a.Edges {
+			sub, ok := constSetOf(p, e, depth+1, seen)
+			if !ok {
+				return nil, false
+			}
+			for c := range sub {
+				out[c] = true
+			}
+		}
+		return out, true
+	case *ssa.ChangeType:
+		return constSetOf(p, a.X, depth+1, seen)
+	case *ssa.UnOp:
+		// element of a literal: every element store is a constant
+		ia, ok := a.X.(*ssa.IndexAddr)
+		if !ok {
+			return nil, false
+		}
+		var arr *ssa.Alloc
+		switch b := ia.X.(type) {
+		case *ssa.Slice:
+			arr, _ = b.X.(*ssa.Alloc)
+		case *ssa.Alloc:
+			arr = b
+		}
+		if arr == nil {
+			return nil, false
+		}
+		n := 0
+		for _, r := range *arr.Referrers() {
+			ea, ok := r.(*ssa.IndexAddr)
+			if !ok {
+				continue
+			}
+			for _, r2 := range *ea.Referrers() {
+				if s, ok := r2.(*ssa.Store); ok {
+					k, ok := s.Val.(*ssa.Const)
+					if !ok {
+						return nil, false
+					}
+					out[constStr(k)] = true
+					n++
+				}
+			}
+		}
+		return out, n > 0
+	}
+	return nil, false
 }
